@@ -352,3 +352,57 @@ M("c18-bbox-revert", "C18", "flexstack/facilities/vru_awareness_service/vru_clus
   "            if bbox and \"circular\" in bbox:", "revert: decoded bounding box crashes the receiver's parser")
 M("c18-leader-timer", "C18", "flexstack/facilities/vru_awareness_service/vru_clustering.py",
   "            and self._leader_station_id == sender_id\n        ):\n            self._last_leader_vam_time = now", "            and self._leader_station_id != sender_id\n        ):\n            self._last_leader_vam_time = now", "any station but the leader refreshes the leader-lost timer")
+
+# ---------------------------------------------------------------- C15 (schedules)
+R = "flexstack/geonet/router.py"
+LT_ = "flexstack/geonet/location_table.py"
+M("c15-sn-nolock", "C15", R,
+  "        with self.sequence_number_lock:\n            self.sequence_number = (self.sequence_number + 1) % (2**16 - 1)",
+  "        if True:\n            self.sequence_number = (self.sequence_number + 1) % (2**16 - 1)", "sequence counter incremented without its lock")
+M("c15-sn-read-outside", "C15", R,
+  "        with self.sequence_number_lock:\n            self.sequence_number = (self.sequence_number + 1) % (2**16 - 1)\n            return self.sequence_number",
+  "        with self.sequence_number_lock:\n            self.sequence_number = (self.sequence_number + 1) % (2**16 - 1)\n        return self.sequence_number",
+  "sequence number read back after the lock was released")
+M("c15-cbf-timeout-nocheck", "C15", R,
+  "            if cbf_key not in self._cbf_buffer:\n                return  # duplicate already arrived and discarded us\n            del self._cbf_buffer[cbf_key]",
+  "            self._cbf_buffer.pop(cbf_key, None)", "CBF expiry transmits even if the entry was already discarded")
+M("c15-cbf-timeout-check-unlocked", "C15", R,
+  "        with self._cbf_lock:\n            if cbf_key not in self._cbf_buffer:\n                return  # duplicate already arrived and discarded us\n            del self._cbf_buffer[cbf_key]",
+  "        if cbf_key not in self._cbf_buffer:\n            return\n        with self._cbf_lock:\n            self._cbf_buffer.pop(cbf_key, None)",
+  "CBF expiry tests the buffer before taking the lock")
+M("c15-cbf-start-before-insert", "C15", R,
+  "            timer.daemon = True\n            self._cbf_buffer[cbf_key] = timer\n        timer.start()",
+  "            timer.daemon = True\n            timer.start()\n        with self._cbf_lock:\n            self._cbf_buffer[cbf_key] = timer",
+  "CBF timer started before it is in the buffer (expiry finds nothing, entry never leaves)")
+M("c15-pv-two-step", "C15", R,
+  "        with self.ego_position_vector_lock:\n            self.ego_position_vector = self.ego_position_vector.refresh_with_tpv_data(\n                tpv)",
+  "        new = self.ego_position_vector.refresh_with_tpv_data(tpv)\n        self.ego_position_vector = dataclass_replace(self.ego_position_vector, latitude=new.latitude, tst=new.tst)\n        self.ego_position_vector = new",
+  "ego position written in two steps (latitude first)")
+M("c15-ls-nolock", "C15", R,
+  "        with self._ls_lock:\n            entry = self.location_table.get_entry(sought_gn_addr)\n            if entry is not None and entry.ls_pending:",
+  "        if True:\n            entry = self.location_table.get_entry(sought_gn_addr)\n            if entry is not None and entry.ls_pending:",
+  "LS request bookkeeping without the LS lock")
+M("c15-ls-flush-late-pop", "C15", R,
+  "                    buffered = self._ls_packet_buffers.pop(sought_gn_addr, [])\n                    entry = self.location_table.get_entry(sought_gn_addr)\n                    if entry is not None:\n                        entry.ls_pending = False\n",
+  "                    buffered = list(self._ls_packet_buffers.get(sought_gn_addr, []))\n                    entry = self.location_table.get_entry(sought_gn_addr)\n                self._ls_packet_buffers.pop(sought_gn_addr, None)\n                with self._ls_lock:\n                    if entry is not None:\n                        entry.ls_pending = False\n",
+  "LS reply copies the buffer under the lock but removes it after releasing it")
+M("c15-ls-placeholder-unlocked", "C15", R,
+  "            with self.location_table.loc_t_lock:\n                entry = self.location_table.ensure_entry(sought_gn_addr)\n                entry.ls_pending = True",
+  "            if True:\n                entry = self.location_table.ensure_entry(sought_gn_addr)\n                entry.ls_pending = True",
+  "revert: placeholder created and marked pending without the table lock")
+M("c15-ls-timer-start-first", "C15", R,
+  "        with self._ls_lock:\n            old = self._ls_timers.pop(sought_gn_addr, None)\n            if old:\n                old.cancel()\n            self._ls_timers[sought_gn_addr] = timer\n        timer.start()",
+  "        timer.start()\n        with self._ls_lock:\n            old = self._ls_timers.pop(sought_gn_addr, None)\n            if old:\n                old.cancel()\n            self._ls_timers[sought_gn_addr] = timer",
+  "revert: LS timer started before it is registered")
+M("c15-loct-update-unlocked", "C15", LT_,
+  "                self.loc_t[gbc_extended_header.so_pv.gn_addr] = entry\n            entry.update_with_gbc_packet(packet, gbc_extended_header, is_new_entry)",
+  "                self.loc_t[gbc_extended_header.so_pv.gn_addr] = entry\n        entry.update_with_gbc_packet(packet, gbc_extended_header, is_new_entry)",
+  "revert: GBC source entry updated after the table lock was released")
+M("c15-neighbours-unlocked", "C15", LT_,
+  "        neighbours: list[LocationTableEntry] = []\n        with self.loc_t_lock:\n            for _, entry in self.loc_t.items():",
+  "        neighbours: list[LocationTableEntry] = []\n        if True:\n            for _, entry in self.loc_t.items():",
+  "neighbour scan iterates the table without the lock")
+M("c15-lock-order", "C15", R,
+  "                with self._ls_lock:\n                    timer = self._ls_timers.pop(sought_gn_addr, None)",
+  "                with self.location_table.loc_t_lock, self._ls_lock:\n                    timer = self._ls_timers.pop(sought_gn_addr, None)",
+  "LS reply takes table lock then LS lock (request path takes them the other way round)")
